@@ -121,6 +121,13 @@ class ScalarAngle(RegionAttribute):
     angular units.
     """
 
+    def __set__(self, instance, value):
+        self._validate(value)
+        # store a copy: the constructors' default angle is one object per
+        # class, which would otherwise be shared by (and changed, e.g., by
+        # ``region.angle += ...``, for) every region created with it
+        instance.__dict__[self.name] = value.copy()
+
     def _validate(self, value):
         if isinstance(value, Quantity):
             if not value.isscalar:
